@@ -546,7 +546,7 @@ int main(int argc, char **argv)
     int qTotal, tTotal;
     double weight;
   } S[] = {
-    {"seq1", 1, false, 1, 2, 2}, {"pipe2", 2, true, 0, 1, 3}, {"seq2", 2, false, 0, 1, 3}, {"pipe3", 3, true, 0, 0, 2}, {"seq3", 3, false, 0, 0, 2},
+    {"seq1", 1, false, 1, 2, 2}, {"pipe2", 2, true, 1, 1, 3}, {"seq2", 2, false, 0, 1, 3}, {"pipe3", 3, true, 0, 0, 2}, {"seq3", 3, false, 0, 0, 2},
   };
   for (auto &s : S)
   {
